@@ -143,13 +143,36 @@ func c05Accessors(o xpmock.Outcome) (anyValue bool, allErr bool) {
 	return
 }
 
+// data trees every machine is run on: what a path denotes decides which operand shapes meet
+// (single values, multi-valued leaf-lists on both sides of an operator, absent nodes, empty values)
+var c05Trees = []struct {
+	name   string
+	answer func(string) xp.Answer
+}{
+	{"leaf-per-path", c02Answer},
+	{"leaf-lists-everywhere", func(string) xp.Answer { return xp.Answer{Kind: xp.AnsLeafList, Vals: []string{"1", "x", "3"}} }},
+	{"absent-or-leaf-list", c06Tables[2]},
+	{"nothing-exists", func(string) xp.Answer { return xp.Answer{Kind: xp.AnsAbsent} }},
+	{"empty-values", func(p string) xp.Answer {
+		if core.Hash(p)%2 == 0 {
+			return xp.Answer{Kind: xp.AnsLeaf, Vals: []string{""}}
+		}
+		return xp.Answer{Kind: xp.AnsLeafList, Vals: []string{}}
+	}},
+}
+
 func c05RunTotal(m *xpath.Machine, in, grammar string, res *core.CaseResult) {
 	res.Ev("machines_run", 1)
-	for _, mode := range []string{"mock-tree", "no-tree"} {
+	modes := []string{"no-tree"}
+	for _, t := range c05Trees {
+		modes = append(modes, "mock-tree/"+t.name)
+	}
+	for mi, mode := range modes {
 		var o xpmock.Outcome
 		pan, msg, stack := core.Guard(func() {
-			if mode == "mock-tree" {
-				o = xpmock.Run(m, &xpmock.Tree{Default: c02Answer})
+			if mi > 0 {
+				res.Ev("runs_on_tree_"+c05Trees[mi-1].name, 1)
+				o = xpmock.Run(m, &xpmock.Tree{Default: c05Trees[mi-1].answer})
 			} else {
 				o = c05RunNoTree(m)
 			}
@@ -261,7 +284,13 @@ func c05Fault(e *xp.Node, res *core.CaseResult) {
 		return // acceptance is C04's subject
 	}
 	listing := m.PrintMachine()
-	mk := func() *xpmock.Tree { return &xpmock.Tree{Default: c02Answer} }
+	for ti := range c05Trees {
+		c05FaultOnTree(m, src, listing, ti, res)
+	}
+}
+
+func c05FaultOnTree(m *xpath.Machine, src, listing string, ti int, res *core.CaseResult) {
+	mk := func() *xpmock.Tree { return &xpmock.Tree{Default: c05Trees[ti].answer} }
 	clean := mk()
 	o0 := xpmock.Run(m, clean)
 	n := clean.NCalls
@@ -277,8 +306,8 @@ func c05Fault(e *xp.Node, res *core.CaseResult) {
 		pan, msg, stack := core.Guard(func() { o = xpmock.Run(m, t) })
 		res.Ev("faulted_runs", 1)
 		res.Ev("inputs_evaluated", 1)
-		res.Key(fmt.Sprintf("%s#%d", listing, k))
-		in := jsonStr(map[string]interface{}{"expr": src, "fail_callback": k, "of": n})
+		res.Key(fmt.Sprintf("%s#%d@%d", listing, k, ti))
+		in := jsonStr(map[string]interface{}{"expr": src, "fail_callback": k, "of": n, "tree": c05Trees[ti].name})
 		if pan || o.Panic != "" {
 			res.Fail("C05/fault/panic/"+core.TopRepoFrame(stack), in, msg+o.Panic)
 			continue
